@@ -838,6 +838,11 @@ func (in *Interp) binop(x *BinOp, env *Env) Val {
 		}
 		return VStr{engine.Str{B: append(append([]*engine.Term{}, ls.S.B...), rs.S.B...)}}
 	}
+	if _, isStr := l.(VStr); isStr {
+		if _, both := r.(VStr); both {
+			in.unknown("operator %s on strings is not part of the modelled GooseLang", x.Op)
+		}
+	}
 	a, ok1 := l.(VInt)
 	b, ok2 := r.(VInt)
 	if !ok1 || !ok2 {
